@@ -569,6 +569,7 @@ func init() {
 		c.Each(c.N(600, 6000), textDiffCheck(c, glslBackend, "C05"))
 		c01PtrArgs(c, []string{"glsl"})
 		c01ConstBits(c, []string{"glsl"})
+		c01SemTemplates(c, []string{"glsl"})
 		return c.Finish(textDiffRule("GLSL"), []string{"glslx implements GLSL 4.x / ES 3.1 semantics, std430/std140 layout and treats GLSL-undefined operations as traps", "executions on which GLSL itself is undefined are outside the property"})
 	})
 	register("C04", func(c *run.Ctx) int {
@@ -576,6 +577,7 @@ func init() {
 		c.Each(c.N(600, 6000), textDiffCheck(c, mslBackend, "C04"))
 		c01PtrArgs(c, []string{"msl"})
 		c01ConstBits(c, []string{"msl"})
+		c01SemTemplates(c, []string{"msl"})
 		return c.Finish(textDiffRule("MSL"), []string{"mslx implements MSL / C++14 semantics and the Metal ABI layout (vec3 = 16 bytes, packed vectors, matrices as column arrays)"})
 	})
 	register("C03", func(c *run.Ctx) int {
@@ -583,6 +585,7 @@ func init() {
 		c.Each(c.N(600, 6000), textDiffCheck(c, hlslBackend, "C03"))
 		c01PtrArgs(c, []string{"hlsl"})
 		c01ConstBits(c, []string{"hlsl"})
+		c01SemTemplates(c, []string{"hlsl"})
 		return c.Finish(textDiffRule("HLSL"), []string{"hlslx implements HLSL semantics, byte-address buffer methods and legacy cbuffer packing"})
 	})
 }
